@@ -420,6 +420,8 @@ def main(argv):
                        "sidecar_line": v.get("sidecar_line"), "verifier_message": v.get("msg"), "verifier_output": v.get("rendered"),
                        "generated_line": v.get("line"), "generated_text": v.get("text"), "witness": witness,
                        "how_to_replay": f"./check {pid} --replay {path}"}, open(path, "w"), indent=1)
+            if path in replay_paths:
+                continue
             replay_paths.append(path)
             out_lines.append(f"VIOLATION property={pid} replay={path}" + ("" if witness else " no-failing-input-found"))
         rc = 1
